@@ -61,5 +61,7 @@ Loop == Ready =>
 (* Ed25519: exactly one request of 64 bytes, reduced mod L                     *)
 ASSUME EdRandomScalar(5, << [req |-> 64, got |-> Zeros(63) \o <<13>>] >>) = SamplerOK(3)
 ASSUME ~EdRandomScalar(5, << [req |-> 32, got |-> Zeros(32)] >>).ok
+ASSUME EdRandomScalar(5, << [req |-> 32, got |-> Zeros(32)], [req |-> 32, got |-> Zeros(31) \o <<13>>] >>) = SamplerOK(3)
+ASSUME ~EdRandomScalar(5, << [req |-> 64, got |-> Zeros(64)], [req |-> 1, got |-> <<0>>] >>).ok
 ASSUME ~EdRandomScalar(5, <<>>).ok
 =============================================================================
